@@ -152,10 +152,9 @@ class _CachedStorage(BaseStorage, BaseHeartbeat):
             study = self._studies[study_id]
             self._add_trials_to_cache(study_id, [frozen_trial])
             # Since finished trials will not be modified by any worker, we do not
-            # need storage access for them.
-            if frozen_trial.state.is_finished():
-                study.last_finished_trial_id = max(study.last_finished_trial_id, trial_id)
-            else:
+            # need storage access for them. ``last_finished_trial_id`` must not be advanced
+            # here: trials with smaller IDs created by other workers may not be cached yet.
+            if not frozen_trial.state.is_finished():
                 study.unfinished_trial_ids.add(trial_id)
         return trial_id
 
